@@ -286,7 +286,11 @@ func strRepeatFunc(_ *ctx.EvalCtx, receiver object.Object, args ...object.Object
 	}
 
 	val := receiver.(*object.Str).Value
-	repeated := strings.Repeat(val, int(firstArg.Value))
+
+	repeated, err := repeatStr(val, int(firstArg.Value))
+	if err != nil {
+		return nil, err
+	}
 
 	return &object.Str{Value: repeated}, nil
 }
